@@ -113,3 +113,156 @@ package cbcmac
 //@   loop 1 invariant forall j :: 0 <= j && j < len(P) ==> P[j] == M[j]
 //@   loop 1 decreases len(src)
 //@   assert before call XORBytes#2: len(src) == bs && offof(src) - offof(P) == bs * (N - 1) && (offof(src) - offof(P)) / bs == N - 1
+
+// CBC chaining depends only on the bytes of the blocks it consumes (extensionality), by induction
+// on the number of blocks.
+//@ lemma cbc_ext16 property C19 vars k,t0:arr,a:arr,o,a2:arr,o2,n induct n : (forall j :: 0 <= j && j < 16 * n ==> a[o + j] == a2[o2 + j]) ==> CBC(k, t0, a, o, 16, n) == CBC(k, t0, a2, o2, 16, n)
+//@ lemma cbc_ext8 property C19 vars k,t0:arr,a:arr,o,a2:arr,o2,n induct n : (forall j :: 0 <= j && j < 8 * n ==> a[o + j] == a2[o2 + j]) ==> CBC(k, t0, a, o, 8, n) == CBC(k, t0, a2, o2, 8, n)
+
+// ---- CMAC: streaming object. Ghost view: cmsg[d] is the message written since the last Reset
+// (an array indexed from 0), clen[d] its length.
+//@ ghost cmsg : (Array Int Int) of cmac
+//@ ghost clen : Int of cmac
+
+// shape: what the constructor establishes and every method keeps
+//@ pred cshape(c, bs) := c.b != nil && BS(id(c.b)) == bs && c.blockSize == bs && 1 <= c.size && c.size <= bs
+//@+  && len(c.tag) == bs && len(c.x) == bs && len(c.k1) == bs && len(c.k2) == bs
+//@+  && offof(c.tag) == 0 && offof(c.k1) == 0 && offof(c.k2) == 0
+//@+  && !sameobj(c.tag, c.x) && !sameobj(c.tag, c.k1) && !sameobj(c.tag, c.k2) && !sameobj(c.x, c.k1) && !sameobj(c.x, c.k2)
+// buffering invariant over the ghost message
+//@ pred cari(c, bs) := 0 <= c.nx && c.nx <= bs && 0 <= ghost(clen, c)
+//@+  && (ghost(clen, c) == 0 ==> c.nx == 0) && (ghost(clen, c) > 0 ==> 1 <= c.nx) && (ghost(clen, c) - c.nx) % bs == 0 && c.nx <= ghost(clen, c)
+//@ pred cbufx(c, bs) := forall j :: 0 <= j && j < c.nx ==> c.x[j] == ghost(cmsg, c)[ghost(clen, c) - c.nx + j]
+//@ pred ctag(c, bs) := forall j :: 0 <= j && j < bs ==> c.tag[j] == CBC(id(c.b), ZEROARR(), ghost(cmsg, c), 0, bs, (ghost(clen, c) - c.nx) / bs)[j]
+//@ pred cinv(c, bs) := cshape(c, bs) && cari(c, bs) && cbufx(c, bs) && ctag(c, bs)
+
+//@ func (*cmac).checkSum property C19
+//@   config bs in 8,16
+//@   requires cinv(c, bs)
+//@   let K := id(c.b)
+//@   let L := ghost(clen, c)
+//@   let T := CBC(K, ZEROARR(), ghost(cmsg, c), 0, bs, (L - c.nx) / bs)
+//@   ensures len(result) == c.size
+//@   ensures L > 0 ==> forall j :: 0 <= j && j < c.size ==> result[j] == ENC(K, CMACBLK(T, ghost(cmsg, c), L - c.nx, c.nx, arr(c.k1), arr(c.k2), bs))[j]
+//@   ensures L == 0 ==> forall j :: 0 <= j && j < c.size ==> result[j] == ENC(K, CMACBLK0(arr(c.k2), bs))[j]
+//@   fresh result
+//@   modifies c.tag[0..bs]
+
+//@ func (*cmac).Size property C19
+//@   ensures result == c.size
+//@   modifies nothing
+
+// the empty-message block is the general final block with nx = 0 and chaining value 0
+//@ lemma cmac_empty16 property C19 vars m:arr,o,k1:arr,k2:arr : (forall i :: 0 <= i && i < 16 ==> 0 <= k2[i] && k2[i] <= 255) ==> CMACBLK(ZEROARR(), m, o, 0, k1, k2, 16) == CMACBLK0(k2, 16)
+//@ lemma cmac_empty8 property C19 vars m:arr,o,k1:arr,k2:arr : (forall i :: 0 <= i && i < 8 ==> 0 <= k2[i] && k2[i] <= 255) ==> CMACBLK(ZEROARR(), m, o, 0, k1, k2, 8) == CMACBLK0(k2, 8)
+
+//@ func (*cmac).block property C19
+//@   config bs in 8,16
+//@   requires cshape(c, bs) && len(p) % bs == 0 && !sameobj(p, c.tag)
+//@   let K := id(c.b)
+//@   let T0 := arr(c.tag)
+//@   let PA := arr(p)
+//@   ensures forall j :: 0 <= j && j < bs ==> c.tag[j] == CBC(K, T0, PA, offof(p), bs, len(p) / bs)[j]
+//@   modifies c.tag[0..bs]
+//@   loop 1 let P := p
+//@   loop 1 invariant sameobj(p, P) && offof(p) + len(p) == offof(P) + len(P) && offof(P) <= offof(p) && (offof(p) - offof(P)) % bs == 0
+//@   loop 1 invariant forall j :: 0 <= j && j < bs ==> c.tag[j] == CBC(K, T0, PA, offof(P), bs, (offof(p) - offof(P)) / bs)[j]
+//@   loop 1 invariant onlychanged(c.tag)
+//@   loop 1 decreases len(p)
+
+//@ func (*cmac).Reset property C19
+//@   config bs in 8,16
+//@   requires cshape(c, bs)
+//@   ensures cinv(c, bs) && ghost(clen, c) == 0
+//@   ghostset clen[c] := 0
+//@   modifies c.tag[0..bs], c.nx, c.len
+//@   loop 1 invariant -1 <= rangeindex && rangeindex < bs && forall j :: 0 <= j && j <= rangeindex ==> c.tag[j] == 0
+//@   loop 1 invariant onlychanged(c.tag)
+//@   loop 1 decreases bs - rangeindex
+
+//@ func (*cmac).Sum property C19
+//@   config bs in 8,16
+//@   requires cinv(d, bs)
+//@   requires !sameobj(in, d.tag) && !sameobj(in, d.x) && !sameobj(in, d.k1) && !sameobj(in, d.k2)
+//@   let K := id(d.b)
+//@   let L := ghost(clen, d)
+//@   let M := ghost(cmsg, d)
+//@   let NX := d.nx
+//@   let T := CBC(K, ZEROARR(), M, 0, bs, (L - NX) / bs)
+//@   let K1A := arr(d.k1)
+//@   let K2A := arr(d.k2)
+//@   ensures len(result) == len(in) + d.size
+//@   ensures forall j :: 0 <= j && j < len(in) ==> result[j] == old(in[j])
+//@   ensures L > 0 ==> forall j :: 0 <= j && j < d.size ==> result[len(in) + j] == ENC(K, CMACBLK(T, M, L - NX, NX, K1A, K2A, bs))[j]
+//@   ensures L == 0 ==> forall j :: 0 <= j && j < d.size ==> result[len(in) + j] == ENC(K, CMACBLK0(K2A, bs))[j]
+//@   ensures cinv(d, bs)
+//@   modifies in[len(in)..cap(in)]
+
+// appending blocks: continuing the chain from a state whose bytes equal the first q blocks
+//@ lemma cbc_app16 property C19 vars k,t1:arr,t0:arr,a:arr,q,a2:arr,o2,m induct m : (q >= 0 && (forall i :: 0 <= i && i < 16 ==> t1[i] == CBC(k, t0, a, 0, 16, q)[i]) && (forall j :: 0 <= j && j < 16 * m ==> a[16 * q + j] == a2[o2 + j])) ==> forall i :: 0 <= i && i < 16 ==> CBC(k, t1, a2, o2, 16, m)[i] == CBC(k, t0, a, 0, 16, q + m)[i]
+//@ lemma cbc_app8 property C19 vars k,t1:arr,t0:arr,a:arr,q,a2:arr,o2,m induct m : (q >= 0 && (forall i :: 0 <= i && i < 8 ==> t1[i] == CBC(k, t0, a, 0, 8, q)[i]) && (forall j :: 0 <= j && j < 8 * m ==> a[8 * q + j] == a2[o2 + j])) ==> forall i :: 0 <= i && i < 8 ==> CBC(k, t1, a2, o2, 8, m)[i] == CBC(k, t0, a, 0, 8, q + m)[i]
+
+//@ func (*cmac).Write property C19
+//@   config bs in 8,16
+//@   requires cinv(d, bs) && !sameobj(p, d.tag) && !sameobj(p, d.x)
+//@   let K := id(d.b)
+//@   let M := ghost(cmsg, d)
+//@   let L := ghost(clen, d)
+//@   let NX := d.nx
+//@   let PA := arr(p)
+//@   let PO := offof(p)
+//@   let PL := len(p)
+//@   let M2 := CAT(M, L, PA, PO, PL)
+//@   ghostset cmsg[d] := M2
+//@   ghostset clen[d] := L + PL
+//@   ensures nn == PL && err == nil
+//@   ensures cshape(d, bs)
+//@   ensures cari(d, bs)
+//@   ensures cbufx(d, bs)
+//@   ensures ctag(d, bs)
+//@   modifies d.tag[0..bs], d.x[0..bs], d.nx, d.len
+//@   apply at entry: cbc_ext16(K, ZEROARR(), M2, 0, M, 0, (L - NX) / 16)
+//@   apply at entry: cbc_ext8(K, ZEROARR(), M2, 0, M, 0, (L - NX) / 8)
+//@   assert at entry: forall j :: 0 <= j && j < bs ==> d.tag[j] == CBC(K, ZEROARR(), M2, 0, bs, (L - NX) / bs)[j]
+//@   assert before call block#1: NX == bs && forall j :: 0 <= j && j < bs ==> M2[bs * ((L - NX) / bs) + j] == d.x[j]
+//@   apply before call block#1: cbc_app16(K, arr(d.tag), ZEROARR(), M2, (L - NX) / 16, arr(d.x), offof(d.x), 1)
+//@   apply before call block#1: cbc_app8(K, arr(d.tag), ZEROARR(), M2, (L - NX) / 8, arr(d.x), offof(d.x), 1)
+//@   assert after call block#1: forall j :: 0 <= j && j < bs ==> d.tag[j] == CBC(K, ZEROARR(), M2, 0, bs, (L - NX) / bs + 1)[j]
+//@   assert before call block#2: bs * ((L - NX) / bs) == L - NX && d.nx == bs && 0 < NX && NX < bs && len(p) > 0
+//@   assert before call block#2: forall j :: 0 <= j && j < NX ==> d.x[j] == M[L - NX + j]
+//@   assert before call block#2: forall j :: NX <= j && j < bs ==> d.x[j] == PA[PO + j - NX]
+//@   assert before call block#2: forall j :: 0 <= j && j < bs ==> M2[L - NX + j] == d.x[j]
+//@   assert before call block#2: forall j :: 0 <= j && j < bs ==> M2[bs * ((L - NX) / bs) + j] == d.x[j]
+//@   apply before call block#2: cbc_app16(K, arr(d.tag), ZEROARR(), M2, (L - NX) / 16, arr(d.x), offof(d.x), 1)
+//@   apply before call block#2: cbc_app8(K, arr(d.tag), ZEROARR(), M2, (L - NX) / 8, arr(d.x), offof(d.x), 1)
+//@   assert after call block#2: forall j :: 0 <= j && j < bs ==> d.tag[j] == CBC(K, ZEROARR(), M2, 0, bs, (L - NX) / bs + 1)[j]
+//@   assert before call block#3: d.nx == 0 && (L + PL - len(p)) % bs == 0 && sameobj(p, old(p)) && offof(p) == PO + PL - len(p) && n % bs == 0 && 0 < n && n <= len(p)
+//@   assert before call block#3: forall j :: 0 <= j && j < bs ==> d.tag[j] == CBC(K, ZEROARR(), M2, 0, bs, (L + PL - len(p)) / bs)[j]
+//@   assert before call block#3: bs * ((L + PL - len(p)) / bs) == L + PL - len(p) && bs * (n / bs) == n
+//@   assert before call block#3: forall j :: 0 <= j && j < n ==> M2[L + PL - len(p) + j] == p[j]
+//@   assert before call block#3: forall j :: 0 <= j && j < bs * (n / bs) ==> M2[bs * ((L + PL - len(p)) / bs) + j] == p[j]
+//@   apply before call block#3: cbc_app16(K, arr(d.tag), ZEROARR(), M2, (L + PL - len(p)) / 16, arr(p), offof(p), n / 16)
+//@   apply before call block#3: cbc_app8(K, arr(d.tag), ZEROARR(), M2, (L + PL - len(p)) / 8, arr(p), offof(p), n / 8)
+//@   assert after call block#3: forall j :: 0 <= j && j < bs ==> d.tag[j] == CBC(K, ZEROARR(), M2, 0, bs, (L + PL - len(p)) / bs + n / bs)[j]
+//@   assert after call block#3: (L + PL - len(p)) / bs + n / bs == (L + PL - len(p) + n) / bs
+
+// MAC: the result is a function of the key material and src only (requires only the shape, i.e.
+// any earlier use of the object is allowed).
+//@ func (*cmac).MAC property C19
+//@   config bs in 8,16
+//@   requires cshape(c, bs) && !sameobj(src, c.tag) && !sameobj(src, c.x) && !sameobj(src, c.k1) && !sameobj(src, c.k2)
+//@   let K := id(c.b)
+//@   let SA := arr(src)
+//@   let SO := offof(src)
+//@   let SL := len(src)
+//@   let K1A := arr(c.k1)
+//@   let K2A := arr(c.k2)
+//@   let NXF := SL - bs * ((SL - 1) / bs)
+//@   ensures len(result) == c.size
+//@   ensures SL > 0 ==> forall j :: 0 <= j && j < c.size ==> result[j] == ENC(K, CMACBLK(CBC(K, ZEROARR(), SA, SO, bs, (SL - NXF) / bs), SA, SO + SL - NXF, NXF, K1A, K2A, bs))[j]
+//@   ensures SL == 0 ==> forall j :: 0 <= j && j < c.size ==> result[j] == ENC(K, CMACBLK0(K2A, bs))[j]
+//@   ensures cinv(c, bs)
+//@   modifies c.tag[0..bs], c.x[0..bs], c.nx, c.len, ghost(cmsg, c), ghost(clen, c)
+//@   assert after call Write#1: ghost(clen, c) == SL && (SL > 0 ==> c.nx == NXF) && (forall j :: 0 <= j && j < SL ==> ghost(cmsg, c)[j] == SA[SO + j])
+//@   apply after call Write#1: cbc_ext16(K, ZEROARR(), ghost(cmsg, c), 0, SA, SO, (SL - NXF) / 16)
+//@   apply after call Write#1: cbc_ext8(K, ZEROARR(), ghost(cmsg, c), 0, SA, SO, (SL - NXF) / 8)
